@@ -134,6 +134,7 @@ def run(ctx):
     R.floor("codec_field_obligations", n_fields, 70)
     _base_cases(R, F, pairs)
     _key_order(R, F, pairs)
+    _serde_symmetry(R, F, ctx)
     return R
 
 
@@ -289,3 +290,54 @@ def _var_width(ty, pairs, seen):
                 out += _var_width(x["ty"], pairs, seen)
             return out
     return []
+
+
+def _serde_symmetry(R, F, ctx):
+    """JSON clause: every API type deriving both Serialize and Deserialize has symmetric field attributes, and every
+    hand-written Serialize impl has a hand-written Deserialize partner (and vice versa)"""
+    import serdescan
+    reviewed = {r["key"]: r for r in ctx.table("serde_reviewed.json")["rows"]}
+    structs = [s_ for s_ in serdescan.scan(ctx.repo) if {"Serialize", "Deserialize"} <= s_["derives"]]
+    R.floor("serde_derived_structs", len(structs), 8)
+    nf = 0
+    for st in structs:
+        for f in st["fields"]:
+            a = f["serde"]
+            nf += 1
+            loc = "%s (%s.%s)" % (st["file"], st["name"], f["name"])
+            key = "%s.%s" % (st["name"], f["name"])
+            skip_s = bool(a.get("skip_serializing") or a.get("skip"))
+            skip_d = bool(a.get("skip_deserializing") or a.get("skip"))
+            R.ob(skip_s == skip_d, "SERDE", loc, "SERDE|%s|skip" % key,
+                 "%s is skipped on one side only (serializing=%s, deserializing=%s): serialise->deserialise->serialise changes the JSON" % (key, skip_s, skip_d))
+            if "skip_serializing_if" in a:
+                ok = "default" in a or f["ty"].startswith("Option<")
+                R.ob(ok, "SERDE", loc, "SERDE|%s|skip_serializing_if" % key,
+                     "%s may be omitted when written but has neither `default` nor an Option type: reading the writer's own output fails" % key,
+                     sample={"rule": "SERDE", "field": key, "attrs": sorted(a)})
+            sw, dw = a.get("serialize_with"), a.get("deserialize_with")
+            if (sw is None) != (dw is None) and "with" not in a:
+                k2 = "%s|%s" % (key, "serialize_with" if sw else "deserialize_with")
+                R.ob(k2 in reviewed, "SERDE", loc, "SERDE|" + k2,
+                     "%s has %s without its counterpart and is not a reviewed row of tables/serde_reviewed.json" % (key, "serialize_with" if sw else "deserialize_with"),
+                     sample={"rule": "SERDE reviewed", "key": k2, "reason": reviewed.get(k2, {}).get("reason", "")[:80]})
+            rn = a.get("rename")
+            if isinstance(rn, dict):
+                R.ob(rn.get("serialize") == rn.get("deserialize"), "SERDE", loc, "SERDE|%s|rename" % key, "%s is renamed differently for writing and reading: %s" % (key, rn))
+    R.floor("serde_fields", nf, 80)
+    # hand-written impl pairs
+    ser = {}
+    de = {}
+    for im in F.impls:
+        tr = im.get("trait") or ""
+        if tr.endswith("::Serialize") and "serde" in tr:
+            ser[im["self_ty"].split("<")[0]] = im
+        if tr.endswith("::Deserialize") and "serde" in tr:
+            de[im["self_ty"].split("<")[0]] = im
+    # derived impls are generated inside `const _: () = {..}` blocks: their impl ids contain `::_::`
+    hand_ser = {t for t, im in ser.items() if not im["loc"].get("x") and t and "::_::" not in t}
+    hand_de = {t for t, im in de.items() if not im["loc"].get("x") and t and "::_::" not in t}
+    R.floor("hand_written_serde_types", len(hand_ser), 6)
+    for t in sorted(hand_ser | hand_de):
+        R.ob(t in hand_ser and t in hand_de, "SERDE", "src", "SERDE|pair|%s" % t, "%s has a hand-written %s but no hand-written %s" % (t, "Serialize" if t in hand_ser else "Deserialize", "Deserialize" if t in hand_ser else "Serialize"),
+             sample={"rule": "SERDE pair", "type": t.split("::")[-1]})
